@@ -821,13 +821,14 @@ static void dst_case(int mode, int w, int h, int nc, int sub, int quality, int r
   if (!ref) { printf("T err\n"); free(img); free(tmp); return; }
   if (single > 0) sizes[ns++] = single;
   else {
-    for (k = 1; k <= maxsz && ns < 8000; k++) sizes[ns++] = k;
+    for (k = 2; k <= maxsz && ns < 8000; k++) sizes[ns++] = k;     /* size 1 last: an overrun there may crash the process */
     for (k = 2; k + 1 < (long)L; k++) if (ref[k] == 0xFF && ref[k + 1] >= 0xD0 && ref[k + 1] <= 0xD7) {
       long d; nmark++;
       /* buffer size s leaves (s - m mod s) free bytes at marker offset m: free 1 <=> s | m+1, free 2 <=> s | m+2, full <=> s | m */
       for (d = 0; d <= 2 && ns < 8000; d++) { long m = k + d, s2; if (m > maxsz) sizes[ns++] = m; s2 = m / 2; if (m % 2 == 0 && s2 > maxsz && ns < 8000) sizes[ns++] = s2; }
     }
   }
+  if (single <= 0 && ns < 8000) sizes[ns++] = 1;
   for (i = 0; i < ns; i++) {
     got = dst_once(mode, w, h, nc, sub, quality, restart, imgseed, img, tmp, (size_t)sizes[i], &gl, &bad);
     if (bad || !got || gl != L || memcmp(got, ref, L) != 0) {
